@@ -144,10 +144,24 @@ class _WFile:
     return getattr(self.f, name)
 
 
+def _inside(root, p):
+  root, p = os.path.realpath(root), os.path.realpath(p)
+  return p == root or p.startswith(root + os.sep)
+
+
 class OsSeam:
-  def __init__(self, inj):
+  """os with effects. If `fs_root` is given, that directory (the cache) is its own file system: a rename across its
+  boundary fails with EXDEV as on a real system."""
+
+  def __init__(self, inj, fs_root=None):
     self._inj = inj
+    self._root = fs_root
     self.path = _PathSeam(inj)
+
+  def _xdev(self, a, b):
+    if self._root is not None and _inside(self._root, a) != _inside(self._root, b):
+      import errno
+      raise OSError(errno.EXDEV, 'Invalid cross-device link', a)
 
   def makedirs(self, *a, **k):
     self._inj.effect('os', 'makedirs')
@@ -155,10 +169,12 @@ class OsSeam:
 
   def rename(self, a, b):
     self._inj.effect('os', 'rename(%s->%s)' % (os.path.basename(a), os.path.basename(b)))
+    self._xdev(a, b)
     return os.rename(a, b)
 
   def replace(self, a, b):
     self._inj.effect('os', 'replace(%s->%s)' % (os.path.basename(a), os.path.basename(b)))
+    self._xdev(a, b)
     return os.replace(a, b)
 
   def remove(self, a):
@@ -167,6 +183,54 @@ class OsSeam:
 
   def __getattr__(self, name):
     return getattr(os, name)
+
+
+class ShutilSeam:
+  """shutil whose file-moving/copying functions are effects. The cache directory is its own file system (the usual
+  situation: cache under $HOME or a network mount, temporary files under /tmp): a move that stays inside it is an atomic
+  rename, a move or copy INTO it transfers the bytes into the destination name - open, write chunk by chunk, close - and
+  can be interrupted after any of them."""
+  CHUNK = 1 << 16
+
+  def __init__(self, inj, fs_root):
+    self._inj, self._root = inj, fs_root
+
+  def _copy_into(self, src, dst):
+    with open(src, 'rb') as f:
+      data = f.read()
+    with _WFile(self._inj, dst, 'wb') as out:
+      for i in range(0, max(len(data), 1), self.CHUNK):
+        out.write(data[i:i + self.CHUNK])
+
+  def move(self, src, dst, *a, **k):
+    self._inj.effect('os', 'move(%s->%s)' % (os.path.basename(str(src)), os.path.basename(str(dst))))
+    if os.path.isdir(dst):
+      dst = os.path.join(dst, os.path.basename(src))
+    if _inside(self._root, src) == _inside(self._root, dst):
+      os.rename(src, dst)
+    else:
+      self._copy_into(src, dst)
+      os.unlink(src)
+    return dst
+
+  def _copy(self, name, src, dst):
+    self._inj.effect('os', '%s(%s->%s)' % (name, os.path.basename(str(src)), os.path.basename(str(dst))))
+    if os.path.isdir(dst):
+      dst = os.path.join(dst, os.path.basename(src))
+    self._copy_into(src, dst)
+    return dst
+
+  def copyfile(self, src, dst, *a, **k):
+    return self._copy('copyfile', src, dst)
+
+  def copy(self, src, dst, *a, **k):
+    return self._copy('copy', src, dst)
+
+  def copy2(self, src, dst, *a, **k):
+    return self._copy('copy2', src, dst)
+
+  def __getattr__(self, name):
+    return getattr(shutil, name)
 
 
 class _PathSeam:
@@ -301,7 +365,8 @@ def download(case):
       req = FakeRequests(inj, data)
       res = None
       try:
-        with seams.patched(downloads, open=FileSeam(inj), os=OsSeam(inj), requests=req, log=lambda *a, **k: None):
+        with seams.patched(downloads, open=FileSeam(inj), os=OsSeam(inj, work), shutil=ShutilSeam(inj, work), requests=req,
+                           log=lambda *a, **k: None):
           p = downloads.maybe_download('https://example.org/dir/' + name, work, progress_=range)
         res = ('ok', p, req.gets, [e for e in inj.trace if e['kind'] == 'write'])
       except Crash:
@@ -319,6 +384,8 @@ def download(case):
     # downloads has no module-level `open`: the seam is installed by setting the attribute
     if not hasattr(downloads, 'open'):
       downloads.open = open
+    if not hasattr(downloads, 'shutil'):
+      downloads.shutil = shutil
     st = _explore(work, run, [name], {name: data}, 'maybe_download', case, no_net)
     _, trace = (lambda: (fault.restore(work, ()), run(None))[1])()
     kinds = {e['kind'] for e in trace}
@@ -344,7 +411,8 @@ def decompress(case):
       with open(os.path.join(work, 'db.sqlite.lzma'), 'wb') as f:
         f.write(comp)
       try:
-        with seams.patched(downloads, open=FileSeam(inj), os=OsSeam(inj), lzma=LzmaSeam(inj), log=lambda *a, **k: None):
+        with seams.patched(downloads, open=FileSeam(inj), os=OsSeam(inj, work), shutil=ShutilSeam(inj, work),
+                           lzma=LzmaSeam(inj), log=lambda *a, **k: None):
           p = downloads.maybe_lzma_decompress(os.path.join(work, 'db.sqlite.lzma'))
         res = ('ok', p, [e for e in inj.trace if e['kind'] in ('write', 'lzma')])
       except Crash:
@@ -359,6 +427,8 @@ def decompress(case):
         require(not result[2], 'a complete decompressed file was not reused', case=dict(case, faults=how))
     if not hasattr(downloads, 'open'):
       downloads.open = open
+    if not hasattr(downloads, 'shutil'):
+      downloads.shutil = shutil
     st = _explore(work, run, ['db.sqlite'], {'db.sqlite': data}, 'maybe_lzma_decompress', case, reuse)
     fault.restore(work, ())
     _, trace = run(None)
